@@ -18,10 +18,13 @@ interfaces:
   concatenated `cell_ids` (`out[ids] = value`), and chopped per entity by offsets.
 
 Polyhedral files: meshio's vtu reader returns the *cell data* of a polyhedral mesh grouped by
-ascending number of nodes, whatever the order in the file (`readBack`).  The model writes the
-polyhedron groups in ascending order (`sortGroups`): this is the repaired behaviour (finding
-"polyhedron block order"); `cellIdsAsCoded` keeps the order of first occurrence of the
-present code so that the defect is expressible.
+ascending number of nodes, whatever the order in the file (`readBack`).  The exporter writes the
+polyhedron groups in ascending order (`sortGroups`, since fix a4b1c63a0); `cellIdsAsCoded` keeps
+the order of first occurrence of the code before that fix so that the defect stays expressible.
+
+Further down: point data (no permutation, only stacking and chopping by node counts), the
+length scale (coordinates scaled, data untouched), file names and their parsing, the `"%f"` time
+labels of pvd files with their numeric value, and the time-information files.
 -/
 namespace PorepyVerif.C38
 
@@ -114,7 +117,7 @@ def groupsDim (dim : Nat) (gs : List GridInfo) : Groups :=
     | .poly => sortGroups (groupGrids 0 (gs.map (·.nnodes)) [])
     | _ => [(0, consecutive 0 (gs.map (·.ncells)))]
 
-/-- the present code: polyhedron blocks in order of first occurrence -/
+/-- the code before fix a4b1c63a0: polyhedron blocks in order of first occurrence -/
 def groupsDimAsCoded (dim : Nat) (gs : List GridInfo) : Groups :=
   if dim ≤ 1 then [(0, consecutive 0 (gs.map (·.ncells)))]
   else if dim = 2 then groupGrids 0 (gs.map (·.nnodes)) []
@@ -183,7 +186,7 @@ def roundTrip (d : α) (dim : Nat) (gs : List GridInfo) (sides : List Nat) (part
   importField d ids (readBack (isPoly dim gs) (groups.map (·.1)) blocks)
     (entitySizes sides (gs.map (·.ncells)))
 
-/-- the same with the block order of the present code -/
+/-- the same with the block order of the code before fix a4b1c63a0 -/
 def roundTripAsCoded (d : α) (dim : Nat) (gs : List GridInfo) (sides : List Nat)
     (parts : List (List α)) : List (List α) :=
   let groups := groupsDimAsCoded dim gs
@@ -216,6 +219,165 @@ def roundTripVec (dim : Nat) (gs : List GridInfo) (sides : List Nat) (nd : Nat)
   let sizes := entitySizes sides (gs.map (·.ncells))
   let parts := (sizes.zip flat).map (fun p => toColumns nd p.1 p.2)
   (roundTrip [] dim gs sides parts).map List.flatten
+
+
+/-! ## point data and the length scale
+
+Points of a dimension: the nodes of the grids, concatenated in listing order (node offsets); a
+0-d grid contributes its cell centre(s) (`_num_grid_entities`: a 0-d grid has as many "nodes" as
+cells).  All coordinates are multiplied by `length_scale`.  Point data are stacked over the
+entities (`np.hstack`), written as they are (`values` / `values.T`), and chopped per entity by
+node counts on import; no permutation is involved. -/
+
+abbrev Pt := List Rat
+
+/-- `_num_grid_entities(grid, "nodes")` -/
+def numPoints (dim numNodes numCells : Nat) : Nat := if dim = 0 then numCells else numNodes
+
+/-- the points a grid contributes -/
+def gridPoints (dim : Nat) (nodes centers : List Pt) : List Pt := if dim = 0 then centers else nodes
+
+def scalePt (L : Rat) (p : Pt) : Pt := p.map (· * L)
+
+/-- `meshio_pts`: all grids, with node offsets, scaled -/
+def meshPoints (L : Rat) (grids : List (List Pt)) : List Pt := (grids.map (·.map (scalePt L))).flatten
+
+/-- `_build_field` + `_write` for point data -/
+def exportPointField (parts : List (List α)) : List α := parts.flatten
+
+/-- `_save_to_mdg(key, value, "nodes")` -/
+def importPointField (sizes : List Nat) (v : List α) : List (List α) := chop sizes v
+
+/-- everything `_write` hands to meshio for one dimension -/
+structure MeshFile (α β : Type) where
+  pts : List Pt
+  cellBlocks : List (List α)
+  pointValues : List β
+
+def exportMesh (d : α) (L : Rat) (gridPts : List (List Pt)) (ids : List (List Nat))
+    (cellParts : List (List α)) (pointParts : List (List β)) : MeshFile α β :=
+  { pts := meshPoints L gridPts, cellBlocks := exportField d ids cellParts,
+    pointValues := exportPointField pointParts }
+
+/-- step 2 of `import_state_from_vtu`: the points of the file must be those of the importing
+    exporter (`np.isclose`, exact in the model) -/
+def pointsCompatible (L : Rat) (gridPts : List (List Pt)) (filePts : List Pt) : Bool :=
+  meshPoints L gridPts == filePts
+
+/-! ## file names
+
+`_make_file_name`: stem, appendix ("", "mortar", "constant", "constant_mortar"), dimension, time
+step (zero padded), joined by "_".  A name is modelled as its list of pieces. -/
+
+inductive Piece where
+  | num (n : Nat)
+  | word (tag : Nat)   -- 0 = "mortar", 1 = "constant", anything else: some other word
+  deriving DecidableEq, Repr
+
+inductive Appendix where
+  | none | mortar | constant | constantMortar
+  deriving DecidableEq, Repr
+
+def Appendix.pieces : Appendix → List Piece
+  | .none => []
+  | .mortar => [.word 0]
+  | .constant => [.word 1]
+  | .constantMortar => [.word 1, .word 0]
+
+def Appendix.isMortar : Appendix → Bool
+  | .mortar | .constantMortar => true
+  | _ => false
+
+def makeName (stem : List Piece) (app : Appendix) (dim : Nat) (step : Option Nat) : List Piece :=
+  stem ++ app.pieces ++ [.num dim] ++ (match step with | none => [] | some s => [.num s])
+
+/-- automatic detection in `import_state_from_vtu`: (dimension, is subdomain data); `none` = the
+    assertion on the last piece fails -/
+def parseName (ps : List Piece) : Option (Nat × Bool) :=
+  let isSd (before : List Piece) : Bool :=
+    !(before.head? == some (.word 0) || (before.head? == some (.word 1) && before[1]? == some (.word 0)))
+  match ps.reverse with
+  | .num _ :: .num b :: before => some (b, isSd before)
+  | .num a :: before => some (a, isSd before)
+  | _ => none
+
+/-- `int(Path(file).stem.split("_")[-1])`: the time index of a conventional pvd file is the
+    suffix of its vtu files (since fix 3945e5db4) -/
+def suffixIndex (ps : List Piece) : Option Nat :=
+  match ps.reverse with
+  | .num n :: _ => some n
+  | _ => none
+
+/-- `automatic=False`: dimension and kind of the i-th file from the arguments
+    (`dims` a list or one number, `are_subdomain_data` a list, one flag, or absent = True) -/
+def resolveManual (dims : List Nat ⊕ Nat) (flags : Option (List Bool ⊕ Bool)) (i : Nat) : Option (Nat × Bool) :=
+  let dim := match dims with
+    | .inl l => l[i]?
+    | .inr n => some n
+  let flag := match flags with
+    | none => some true
+    | some (.inl l) => l[i]?
+    | some (.inr b) => some b
+  match dim, flag with
+  | some d, some f => some (d, f)
+  | _, _ => none
+
+/-- the code before the repair of finding "automatic=False, second file": the keyword arguments
+    were popped while handling the first file, every later file fell back to its name -/
+def resolveAsCodedBefore (dims : List Nat ⊕ Nat) (flags : Option (List Bool ⊕ Bool)) (i : Nat)
+    (name : List Piece) : Option (Nat × Bool) :=
+  if i = 0 then resolveManual dims flags 0 else parseName name
+
+/-! ## decimal digits, `"%f"` labels -/
+
+/-- little-endian decimal digits (fuel = n + 1 suffices) -/
+def digitsAux : Nat → Nat → List Nat
+  | 0, _ => []
+  | f + 1, n => if n < 10 then [n] else (n % 10) :: digitsAux f (n / 10)
+
+def digitsLE (n : Nat) : List Nat := digitsAux (n + 1) n
+
+def ofLE : List Nat → Nat
+  | [] => 0
+  | d :: ds => d + 10 * ofLE ds
+
+/-- value of big-endian digits (leading zeros allowed: `int("000012")`) -/
+def ofBE (ds : List Nat) : Nat := ds.foldl (fun acc d => 10 * acc + d) 0
+
+/-- six decimals -/
+def pad6 (m : Nat) : List Nat :=
+  [m / 100000 % 10, m / 10000 % 10, m / 1000 % 10, m / 100 % 10, m / 10 % 10, m % 10]
+
+/-- ASCII codes of `"%f" % t` for a finite t ≥ 0, where `N = round(t · 10⁶)` -/
+def renderF (N : Nat) : List Nat :=
+  (digitsLE (N / 1000000)).reverse.map (· + 48) ++ 46 :: (pad6 (N % 1000000)).map (· + 48)
+
+/-- `float(label) · 10⁶` for a label of the form digits "." digits(6) -/
+def valueF (s : List Nat) : Nat :=
+  ofBE ((s.takeWhile (· != 46)).map (· - 48)) * 1000000 +
+    ofBE (((s.dropWhile (· != 46)).drop 1).map (· - 48))
+
+/-- python `max(xs, key=key)`: the first maximal element -/
+def argmaxFirst (key : σ → Nat) : List σ → Option σ
+  | [] => none
+  | s :: ss => match argmaxFirst key ss with
+    | none => some s
+    | some m => some (if key m ≤ key s then s else m)
+
+/-- `import_from_pvd` on a conventional pvd file as coded now: entries = (label, suffix of the
+    file name, file); the label with the largest numeric value, the files carrying exactly that
+    label (string comparison), the time index from the suffix of the first of them -/
+def pvdSelectLabels (entries : List (List Nat × Nat × φ)) : Option (Nat × List φ) :=
+  match argmaxFirst valueF (entries.map (·.1)) with
+  | none => none
+  | some lab =>
+    match entries.filter (fun e => e.1 == lab) with
+    | [] => none
+    | e :: rest => some (e.2.1, (e :: rest).map (·.2.2))
+
+/-- entries of a pvd file written by `write_pvd`: micro-time, step, file -/
+def rendered (entries : List (Nat × Nat × φ)) : List (List Nat × Nat × φ) :=
+  entries.map (fun e => (renderF e.1, e.2.1, e.2.2))
 
 /-! ## time information (`TimeManager.write_time_information` / `load_time_information`) -/
 
@@ -278,7 +440,7 @@ def pvdSelect (entries : List (Nat × φ)) : Option (Nat × List φ) :=
   | none => none
   | some m => some (m, (entries.filter (fun e => e.1 == m)).map (·.2))
 
-/-! ### the present code sorts the labels `"%f" % time` as strings (finding "pvd string sort") -/
+/-! ### before fix 2f919c383 the labels `"%f" % time` were sorted as strings -/
 
 /-- ASCII codes of `"%f" % n` for a natural number `n` -/
 def label (n : Nat) : List Nat := (Nat.toDigits 10 n).map (·.toNat) ++ [46, 48, 48, 48, 48, 48, 48]
